@@ -1,11 +1,14 @@
 //! C10: user-dictionary durability and atomic replacement (TrieBuf writer protocol).
 //!
-//!   c10 explore <quick|thorough> <out.trace> <out.json>
-//!        enumerate EVERY interleaving of the foreground histories of the tier with the
-//!        writer's progress points (the writer thread is parked at each hook point and
-//!        released one step at a time), print one trace line per complete schedule and
+//!   c10 explore <max_ops> <alphabet> <crash 0|1> <out.trace> <out.json>
+//!        enumerate EVERY interleaving of the foreground histories (at most max_ops calls
+//!        including the final close, calls taken from the alphabet) with the writer's
+//!        progress points (the writer thread is parked at each hook point and released one
+//!        step at a time), print one trace line per complete schedule and - with crash=1 -
 //!        per crash point (a child process that executes the schedule prefix and aborts),
 //!        and evaluate the property oracles on the implementation.
+//!   c10 random <n> <max_ops> <out.trace> <out.json>   seeded random longer schedules
+//!   c10 corpus <file> <out.trace> <out.json>          schedules from a file
 //!   c10 run <tokens...>          run one schedule, print its trace line
 //!   c10 replay <name|tokens...>  run one schedule with the oracles; exit 1 when one fails
 //!   c10 crash-child <dir> <tokens...>   (internal) execute the prefix, then abort()
@@ -569,15 +572,9 @@ fn run_crash(base: &Path, exe: &Path, toks: &[char]) -> (String, Vec<Failure>) {
 // ---------------------------------------------------------------- exploration
 
 struct Tier {
-    max_ops: usize,          // foreground calls including the close
-    alphabet: Vec<char>,     // foreground calls other than close
-}
-
-fn tier(name: &str) -> Tier {
-    match name {
-        "thorough" => Tier { max_ops: 5, alphabet: vec!['u', 'd', 'f', 'r'] },
-        _ => Tier { max_ops: 4, alphabet: vec!['u', 'd', 'f', 'r'] },
-    }
+    max_ops: usize,      // foreground calls including the close
+    alphabet: Vec<char>, // foreground calls other than close
+    crash: bool,         // kill a child process at every node during or after a rewrite
 }
 
 /// enabled choices, derived from the implementation's state only
@@ -595,24 +592,110 @@ fn enabled(e: &Exec, tr: &Tier, ops_done: usize) -> Vec<char> {
     v
 }
 
-fn explore(tname: &str, out: &str, json: &str) -> i32 {
-    let tr = tier(tname);
+#[derive(Default)]
+struct Stats {
+    leaves: u64,
+    crashes: u64,
+    steps: u64,
+    hangs: u64,
+    with_writer: u64,
+    lost_overlap: u64,
+    points: BTreeMap<String, u64>,
+    hist_ops: BTreeMap<usize, u64>,
+    tok_hist: BTreeMap<char, u64>,
+    samples: Vec<String>,
+    fails: Vec<(String, Failure)>,
+    crashed: HashSet<String>,
+}
+
+impl Stats {
+    /// account for one finished execution and run its crash points
+    fn account(&mut self, w: &mut impl std::io::Write, base: &Path, exe: &Path, path: &[char], e: Exec, crash: bool) {
+        let crash_nodes: Vec<usize> = if crash {
+            (1..=path.len()).filter(|&n| path[..n].contains(&'f') || path[..n].contains(&'x')).collect()
+        } else {
+            vec![]
+        };
+        let (obs, fl, hang, seen) = e.finish();
+        for (k, v) in seen {
+            *self.points.entry(k).or_insert(0) += v;
+        }
+        self.leaves += 1;
+        self.steps += path.len() as u64;
+        let sched: String = path.iter().collect();
+        if hang {
+            self.hangs += 1;
+            self.fails.push((sched.clone(), Failure { oracle: "hang", detail: "no progress within 20 s".into() }));
+        }
+        if path.contains(&'W') {
+            self.with_writer += 1;
+        }
+        // a change or the close overlapping an in-flight write: the situation the property is about
+        let mut inflight = false;
+        let mut overlap = false;
+        for o in obs.iter() {
+            if o.contains("H1") {
+                inflight = true;
+            }
+            if inflight && (o.starts_with("D1H1") || o.starts_with("C0")) {
+                overlap = true;
+            }
+        }
+        if overlap {
+            self.lost_overlap += 1;
+        }
+        *self.hist_ops.entry(path.iter().filter(|&&c| c != 'W' && c != '!').count()).or_insert(0) += 1;
+        for c in path {
+            *self.tok_hist.entry(*c).or_insert(0) += 1;
+        }
+        let l = line(path, &obs);
+        if self.samples.len() < 6 && overlap {
+            self.samples.push(l.clone());
+        }
+        writeln!(w, "{}", l).unwrap();
+        for f in fl {
+            self.fails.push((sched.clone(), f));
+        }
+        for n in crash_nodes {
+            let key: String = path[..n].iter().collect();
+            if self.crashed.insert(key.clone()) {
+                let (l, fl) = run_crash(base, exe, &path[..n]);
+                self.crashes += 1;
+                writeln!(w, "{}", l).unwrap();
+                for f in fl {
+                    self.fails.push((format!("{}!", key), f));
+                }
+            }
+        }
+    }
+
+    fn write_json(&self, json: &str, t0: Instant) {
+        let mut j = String::new();
+        let _ = write!(j, "{{\"schedules\":{},\"crash_points\":{},\"steps\":{},\"hangs\":{},\"schedules_with_writer_steps\":{},\"schedules_with_overlap\":{},\"wall_s\":{:.1},",
+            self.leaves, self.crashes, self.steps, self.hangs, self.with_writer, self.lost_overlap, t0.elapsed().as_secs_f64());
+        let _ = write!(j, "\"writer_points_seen\":{{{}}},", self.points.iter().map(|(k, v)| format!("{}:{}", json_str(k), v)).collect::<Vec<_>>().join(","));
+        let _ = write!(j, "\"foreground_ops_histogram\":{{{}}},", self.hist_ops.iter().map(|(k, v)| format!("\"{}\":{}", k, v)).collect::<Vec<_>>().join(","));
+        let _ = write!(j, "\"token_histogram\":{{{}}},", self.tok_hist.iter().map(|(k, v)| format!("\"{}\":{}", k, v)).collect::<Vec<_>>().join(","));
+        let _ = write!(j, "\"samples\":[{}],", self.samples.iter().map(|s| json_str(s)).collect::<Vec<_>>().join(","));
+        let _ = write!(j, "\"failures\":[{}]}}", self.fails.iter().take(200).map(|(s, f)| format!("{{\"oracle\":{},\"schedule\":{},\"detail\":{}}}", json_str(f.oracle), json_str(s), json_str(&f.detail))).collect::<Vec<_>>().join(","));
+        std::fs::write(json, j).unwrap();
+    }
+}
+
+fn work_base() -> PathBuf {
     let base = PathBuf::from(format!("/tmp/c10/run-{}", std::process::id()));
     std::fs::create_dir_all(&base).unwrap();
+    base
+}
+
+/// every interleaving: stateless depth-first search - rerun from scratch with a forced
+/// prefix, then take the first enabled choice until the schedule is complete, remembering
+/// the alternatives at every depth
+fn explore(tr: &Tier, out: &str, json: &str) -> i32 {
+    let base = work_base();
     let exe = std::env::current_exe().unwrap();
     let mut w = std::io::BufWriter::new(std::fs::File::create(out).unwrap());
-    let mut fails: Vec<(String, Failure)> = vec![];
-    let mut crashed: HashSet<String> = HashSet::new();
-    let mut leaves = 0u64;
-    let mut crashes = 0u64;
-    let mut steps = 0u64;
-    let mut hangs = 0u64;
-    let mut with_writer = 0u64;
-    let mut points: BTreeMap<String, u64> = BTreeMap::new();
-    let mut hist_ops: BTreeMap<usize, u64> = BTreeMap::new();
-    let mut samples: Vec<String> = vec![];
-    // stateless depth-first search: rerun from scratch with a forced prefix, then take the
-    // first enabled choice until the schedule is complete, remembering the alternatives
+    let mut st = Stats::default();
     let mut prefix: Vec<char> = vec![];
     let t0 = Instant::now();
     loop {
@@ -621,14 +704,13 @@ fn explore(tname: &str, out: &str, json: &str) -> i32 {
         let mut alts: Vec<Vec<char>> = vec![];
         let mut ops_done = 0usize;
         loop {
-            let en = enabled(&e, &tr, ops_done);
+            let en = enabled(&e, tr, ops_done);
             if en.is_empty() || e.hang {
                 break;
             }
             let depth = path.len();
             let c = if depth < prefix.len() {
                 if !en.contains(&prefix[depth]) {
-                    // the implementation is not deterministic under our control: report
                     e.failures.push(Failure { oracle: "nondeterministic-enabledness", detail: format!("choice {} no longer enabled at depth {}", prefix[depth], depth) });
                     break;
                 }
@@ -642,46 +724,8 @@ fn explore(tname: &str, out: &str, json: &str) -> i32 {
                 ops_done += 1;
             }
             e.step(c, depth);
-            steps += 1;
         }
-        let crash_nodes: Vec<usize> = (1..=path.len())
-            .filter(|&n| path[..n].contains(&'f') || path[..n].contains(&'x'))
-            .collect();
-        let (obs, fl, hang, seen) = e.finish();
-        for (k, v) in seen {
-            *points.entry(k).or_insert(0) += v;
-        }
-        leaves += 1;
-        if hang {
-            hangs += 1;
-            fails.push((path.iter().collect(), Failure { oracle: "hang", detail: "no progress within 20 s".into() }));
-        }
-        if path.contains(&'W') {
-            with_writer += 1;
-        }
-        *hist_ops.entry(path.iter().filter(|&&c| c != 'W').count()).or_insert(0) += 1;
-        let l = line(&path, &obs);
-        if samples.len() < 6 && path.contains(&'W') {
-            samples.push(l.clone());
-        }
-        writeln!(w, "{}", l).unwrap();
-        for f in fl {
-            fails.push((path.iter().collect(), f));
-        }
-        // crash points: every prefix during or after a rewrite, each once
-        for n in crash_nodes {
-            let key: String = path[..n].iter().collect();
-            if crashed.insert(key) {
-                let (l, fl) = run_crash(&base, &exe, &path[..n]);
-                crashes += 1;
-                writeln!(w, "{}", l).unwrap();
-                for f in fl {
-                    let mut s: String = path[..n].iter().collect();
-                    s.push('!');
-                    fails.push((s, f));
-                }
-            }
-        }
+        st.account(&mut w, &base, &exe, &path, e, tr.crash);
         // backtrack: deepest position with an untried alternative
         let mut next: Option<Vec<char>> = None;
         for d in (0..path.len()).rev() {
@@ -700,14 +744,111 @@ fn explore(tname: &str, out: &str, json: &str) -> i32 {
     }
     w.flush().unwrap();
     let _ = std::fs::remove_dir_all(&base);
-    let mut j = String::new();
-    let _ = write!(j, "{{\"schedules\":{},\"crash_points\":{},\"steps\":{},\"hangs\":{},\"schedules_with_writer_steps\":{},\"wall_s\":{:.1},",
-        leaves, crashes, steps, hangs, with_writer, t0.elapsed().as_secs_f64());
-    let _ = write!(j, "\"writer_points_seen\":{{{}}},", points.iter().map(|(k, v)| format!("{}:{}", json_str(k), v)).collect::<Vec<_>>().join(","));
-    let _ = write!(j, "\"foreground_ops_histogram\":{{{}}},", hist_ops.iter().map(|(k, v)| format!("\"{}\":{}", k, v)).collect::<Vec<_>>().join(","));
-    let _ = write!(j, "\"samples\":[{}],", samples.iter().map(|s| json_str(s)).collect::<Vec<_>>().join(","));
-    let _ = write!(j, "\"failures\":[{}]}}", fails.iter().take(200).map(|(s, f)| format!("{{\"oracle\":{},\"schedule\":{},\"detail\":{}}}", json_str(f.oracle), json_str(s), json_str(&f.detail))).collect::<Vec<_>>().join(","));
-    std::fs::write(json, j).unwrap();
+    st.write_json(json, t0);
+    0
+}
+
+/// seeded random schedules beyond the exhaustive bound: longer histories, all change kinds,
+/// the writer advanced at random; the last node of each is also a crash point
+fn random(n: u64, max_ops: usize, out: &str, json: &str) -> i32 {
+    let base = work_base();
+    let exe = std::env::current_exe().unwrap();
+    let mut w = std::io::BufWriter::new(std::fs::File::create(out).unwrap());
+    let mut st = Stats::default();
+    let t0 = Instant::now();
+    let seed = vharness::util::seed_from_env();
+    let tr = Tier { max_ops, alphabet: vec!['u', 'v', 'd', 'a', 'b', 'f', 'r'], crash: false };
+    for case in 0..n {
+        let mut rng = vharness::util::Rng::new(seed.wrapping_mul(0x9E37_79B9).wrapping_add(case));
+        let mut e = Exec::new(fresh_dir(&base, "run"));
+        let mut path: Vec<char> = vec![];
+        let mut ops_done = 0usize;
+        let want_ops = 2 + rng.below(max_ops as u64 - 1) as usize;
+        loop {
+            let en = enabled(&e, &tr, ops_done);
+            if en.is_empty() || e.hang {
+                break;
+            }
+            let depth = path.len();
+            let c = if en[0] == 'W' && (en.len() == 1 || rng.chance(1, 2)) {
+                'W'
+            } else if e.closing() {
+                'W'
+            } else if ops_done + 1 >= want_ops {
+                'x'
+            } else {
+                // flush and reopen as often as all changes together, as the editor does
+                match rng.below(10) {
+                    0..=2 => 'f',
+                    3..=4 => 'r',
+                    5..=6 => 'u',
+                    7 => 'v',
+                    8 => 'd',
+                    _ => *rng.pick(&['a', 'b']),
+                }
+            };
+            if !en.contains(&c) {
+                continue;
+            }
+            path.push(c);
+            if c != 'W' {
+                ops_done += 1;
+            }
+            e.step(c, depth);
+        }
+        // one crash point per case: a random prefix
+        let cut = 1 + rng.below(path.len() as u64) as usize;
+        st.account(&mut w, &base, &exe, &path, e, false);
+        let key: String = path[..cut].iter().collect();
+        if st.crashed.insert(key.clone()) {
+            let (l, fl) = run_crash(&base, &exe, &path[..cut]);
+            st.crashes += 1;
+            writeln!(w, "{}", l).unwrap();
+            for f in fl {
+                st.fails.push((format!("{}!", key), f));
+            }
+        }
+    }
+    w.flush().unwrap();
+    let _ = std::fs::remove_dir_all(&base);
+    st.write_json(json, t0);
+    0
+}
+
+/// hand-written and previously failing schedules, one per line ('#' starts a comment)
+fn corpus(file: &str, out: &str, json: &str) -> i32 {
+    let base = work_base();
+    let exe = std::env::current_exe().unwrap();
+    let mut w = std::io::BufWriter::new(std::fs::File::create(out).unwrap());
+    let mut st = Stats::default();
+    let t0 = Instant::now();
+    for l in std::fs::read_to_string(file).unwrap_or_default().lines() {
+        let l = l.split('#').next().unwrap().trim();
+        if l.is_empty() {
+            continue;
+        }
+        let toks: Vec<char> = l.chars().filter(|c| !c.is_whitespace()).collect();
+        if toks.last() == Some(&'!') {
+            let (l, fl) = run_crash(&base, &exe, &toks[..toks.len() - 1]);
+            st.crashes += 1;
+            writeln!(w, "{}", l).unwrap();
+            for f in fl {
+                st.fails.push((toks.iter().collect(), f));
+            }
+        } else {
+            let mut e = Exec::new(fresh_dir(&base, "run"));
+            for (i, &t) in toks.iter().enumerate() {
+                e.step(t, i);
+                if e.hang {
+                    break;
+                }
+            }
+            st.account(&mut w, &base, &exe, &toks, e, true);
+        }
+    }
+    w.flush().unwrap();
+    let _ = std::fs::remove_dir_all(&base);
+    st.write_json(json, t0);
     0
 }
 
@@ -729,15 +870,19 @@ fn main() {
     verif_hooks::set_callback(Some(Box::new(callback)));
     let args: Vec<String> = std::env::args().skip(1).collect();
     let code = match args.first().map(|s| s.as_str()) {
-        Some("explore") => explore(&args[1], &args[2], &args[3]),
+        Some("explore") => {
+            let tr = Tier { max_ops: args[1].parse().unwrap(), alphabet: args[2].chars().collect(), crash: args[3] == "1" };
+            explore(&tr, &args[4], &args[5])
+        }
+        Some("random") => random(args[1].parse().unwrap(), args[2].parse().unwrap(), &args[3], &args[4]),
+        Some("corpus") => corpus(&args[1], &args[2], &args[3]),
         Some("crash-child") => crash_child(Path::new(&args[1]), &parse_tokens(&args[2..])),
         Some("run") | Some("replay") => {
             let toks: Vec<char> = match named(args.get(1).map(|s| s.as_str()).unwrap_or("")) {
                 Some(t) => t.chars().collect(),
                 None => parse_tokens(&args[1..]),
             };
-            let base = PathBuf::from(format!("/tmp/c10/run-{}", std::process::id()));
-            std::fs::create_dir_all(&base).unwrap();
+            let base = work_base();
             let exe = std::env::current_exe().unwrap();
             let (l, fl) = if toks.last() == Some(&'!') {
                 run_crash(&base, &exe, &toks[..toks.len() - 1])
@@ -757,7 +902,7 @@ fn main() {
             if args[0] == "replay" && !fl.is_empty() { 1 } else { 0 }
         }
         _ => {
-            eprintln!("usage: c10 explore <tier> <out.trace> <out.json> | run <tokens> | replay <name|tokens>");
+            eprintln!("usage: c10 explore <max_ops> <alphabet> <crash> <out.trace> <out.json> | random <n> <max_ops> <out> <json> | corpus <file> <out> <json> | run <tokens> | replay <name|tokens>");
             2
         }
     };
